@@ -9,6 +9,8 @@ package imapclient
 // report afterwards.
 
 import (
+	"time"
+
 	"github.com/emersion/go-imap/v2"
 	nd "github.com/emersion/go-imap/v2/internal/zzverif/nd"
 )
@@ -16,6 +18,7 @@ import (
 func init() {
 	nd.Register("VerifC12Step", VerifC12Step)
 	nd.Register("VerifC12Greeting", VerifC12Greeting)
+	nd.Register("VerifC12LiteralRefusal", VerifC12LiteralRefusal)
 }
 
 const (
@@ -747,4 +750,71 @@ func VerifC12Greeting() {
 	nd.Assert(c.State() == want, "state-after-greeting")
 	nd.Assert(c.Mailbox() == nil, "mailbox-after-greeting")
 	nd.Assert((c.WaitGreeting() != nil) == (g == 2), "greeting-error")
+}
+
+// VerifC12LiteralRefusal: "a NO or BAD for one command (including a refusal of its literal)
+// affects neither other commands nor the usability of the connection". A command blocks on
+// a synchronising literal; the server answers with a tagged NO/BAD instead of the
+// continuation request; afterwards another command must still be usable on the connection.
+func VerifC12LiteralRefusal() {
+	vc := &vcConn{silent: true}
+	c := vcDirect(vc, imap.ConnStateAuthenticated, nil)
+	close(c.greetingCh)
+	which := nd.Choice(3)
+	done := make(chan struct{})
+	var first *Command
+	var app *AppendCommand
+	go func() {
+		defer nd.Recover()
+		defer close(done)
+		switch which {
+		case 0:
+			first = c.Login("u", "p\xff") // 8-bit password: synchronising literal
+		case 1:
+			first = c.Create("m\r\n", nil)
+		default:
+			app = c.Append("INBOX", 5, nil)
+			app.Write([]byte("hello"))
+			app.Close()
+		}
+	}()
+	for i := 0; i < 400 && len(vc.out) == 0; i++ {
+		time.Sleep(time.Millisecond)
+	}
+	for i := 0; i < 5; i++ {
+		time.Sleep(time.Millisecond)
+	}
+	c.mutex.Lock()
+	blocked := len(c.contReqs)
+	c.mutex.Unlock()
+	nd.Assert(blocked == 1, "command-not-blocked-on-its-literal")
+	if nd.Bool() {
+		vc.in = append(vc.in, "T1 NO refused\r\n"...)
+	} else {
+		vc.in = append(vc.in, "T1 BAD refused\r\n"...)
+	}
+	nd.Assert(c.readResponse() == nil, "conformant-line-rejected")
+	for i := 0; i < 400; i++ {
+		select {
+		case <-done:
+			i = 400
+		default:
+			time.Sleep(time.Millisecond)
+		}
+	}
+	var err error
+	if app != nil {
+		_, err = app.Wait()
+	} else {
+		err = first.Wait()
+	}
+	nd.Assert(err != nil, "refused-command-reports-success")
+	// the connection is still usable
+	nd.Assert(vc.closed == 0, "connection-closed-because-one-literal-was-refused")
+	noop := c.Noop()
+	vc.in = append(vc.in, "T2 OK done\r\n"...)
+	nd.Assert(c.readResponse() == nil, "client-unusable-after-refused-literal")
+	ok, nerr := vcDone(noop)
+	nd.Assert(ok && nerr == nil, "later-command-does-not-complete-after-refused-literal")
+	nd.Reach("refused-literal")
 }
